@@ -147,6 +147,14 @@ def replay(rec, ctx):
             bad("poloidal_vector-differs", f"{p} vs {pu}")
         if not core.close([n.x, n.y, n.z], list(nu), rtol=1e-9, atol=1e-12):
             bad("surface_normal-differs", f"{n} vs {nu}")
+    # the vectors handed out belong to the caller: kept, they still are the field / directions of this node after the
+    # equilibrium was asked about another point
+    kept = {"b_field": (b, (b.x, b.y, b.z)), "poloidal_vector": (p, (p.x, p.y, p.z)), "surface_normal": (n, (n.x, n.y, n.z))}
+    r2, z2 = (r + 1.0 if r + 1.0 <= rmax else r - 1.0), (z + 1.0 if z < 3 else z - 1.0)
+    eq.b_field(r2, z2), eq.poloidal_vector(r2, z2), eq.surface_normal(r2, z2)
+    for name, (vec, was) in kept.items():
+        if (vec.x, vec.y, vec.z) != was:
+            bad(f"{name}-returned-earlier-changes-with-later-evaluations", f"{was} became {(vec.x, vec.y, vec.z)} after evaluating at ({r2}, {z2})")
     # mapped velocity: prescribed toroidal / poloidal / normal components, zero outside
     tor = lambda q: lin(VT, q); pol = lambda q: lin(VP, q); nrm = lambda q: lin(VN, q)     # noqa: E731,E702
     v2 = eq.map_vector2d(tor, pol, nrm)(r, z)
